@@ -289,7 +289,7 @@ Proof.
             if b =? -1 then (false, st, it0) else (true, st_set st (it_var it0) (VI b), it0)
         | TInt => let '(x, e) := ini_int v in (negb e, st_set st (it_var it0) (VI x), it0)
         | TSize => let '(x, e) := ini_sizet v in (negb e, st_set st (it_var it0) (VI x), it0)
-        | TDouble => let '(x, e) := strtod v in (negb e, st_set st (it_var it0) (VD x), it0)
+        | TDouble => let '(x, e) := strtod v in (negb (dbl_error x e), st_set st (it_var it0) (VD x), it0)
         | TString => (true, string_set (w_sobjs w) st (it_var it0) (Some v), it0)
         | TKeyvalue =>
             let t := match al_get (w_kvs w) (it_kv it0) with Some t => t | None => [] end in
